@@ -34,9 +34,9 @@ def hist_of(state):
     return streams, hist
 
 
-def scen(run, name, streams, hist, sync, rotate_at=0, truncate=False, recycle=0, maint="", rotate_every=False, remove_after=""):
+def scen(run, name, streams, hist, sync, rotate_at=0, truncate=False, recycle=0, maint="", rotate_every=False, remove_after="", nowatch=False, fillers=0):
     return dict(run=run, name=name, sync=sync, streams=streams, hist=hist, rotate_at=rotate_at, truncate=truncate, recycle=recycle, maint=maint,
-                rotate_every=rotate_every, remove_after=remove_after)
+                rotate_every=rotate_every, remove_after=remove_after, nowatch=nowatch, fillers=fillers)
 
 
 def run(ctx):
@@ -169,6 +169,18 @@ def run(ctx):
     for i in range(16 if thorough else 8):
         hist = [["open", 0], ["append", 1], ["sleep", ctx.rng.randint(1200, 3400)], ["append", 2], ["sleep", 1500]]
         scs.append(scen(k, "remove-after-%d" % k, ["a", "a"], hist, True, truncate=True, maint="1s", remove_after="2s"))
+        k += 1
+    # rotation at the instant of a restart: the file is renamed and a fresh one created WHILE the restarted file.d scans the
+    # directory and registers its watch (writes are not watched: a file that falls between scan and watch is never read).
+    # The directory holds thousands of files that do not match the pattern, so the scan takes a while; probabilistic.
+    for i in range(40 if thorough else 16):
+        n1 = 3
+        hist = []
+        for j in range(1, n1 + 1):
+            hist += [["append", j], ["act", j], ["deliver", j], ["commit", j]]
+        hist += [["save", 0], ["kill", 0], ["restart_nowait", 0], ["sleep", ctx.rng.randint(5, 140)]]
+        hist += [["append", n1 + 1], ["append", n1 + 2], ["await_started", 0], ["open", 0]]
+        scs.append(scen(k, "rotation-at-restart-%d" % k, ["a"] * (n1 + 2), hist, True, rotate_at=n1 + 1, nowatch=True, fillers=4000))
         k += 1
     # truncated in place and rewritten SHORTER than the saved offsets while file.d is down: the file must be started over
     for i in range(4 if thorough else 2):
